@@ -1,5 +1,5 @@
 """MC_Cgt families: TLC configuration + replay + (for cost-event families) the TLC observation pass."""
-import json, os, re
+import json, math, os, re
 from . import common
 from .common import tlc, harness, read_ndjson, workdir, log, SPEC
 
@@ -271,11 +271,12 @@ def matcher_family(name, seed=1):
 # flat line indices, shared reservation maps, several securities) is model-checked to refine Cgt.tla for EVERY ORDER of
 # every selection of lines from a small alphabet, and its exact outcome is replayed into the code line order and all.
 
-def lines_cfg(maxlines=3, alpha='MC_AlphaAll', minlines=1, **_):
+def lines_cfg(maxlines=3, alpha='MC_AlphaAll', minlines=1, files=0, **_):
     return f'''SPECIFICATION Spec
 CONSTANTS
-  DayNo <- MC_LDayNo
-  LSecs <- MC_LSecs
+  DayNo <- {'MC_LDayNo8' if files else 'MC_LDayNo'}
+  LSecs <- {'MC_LSecs3' if files else 'MC_LSecs'}
+  FromFile = {'TRUE' if files else 'FALSE'}
   MinLines = {minlines}
   MaxLines = {maxlines}
   AlphabetSel <- {alpha}
@@ -289,6 +290,10 @@ LINES_FAMILIES = {
     'lines4_q': dict(maxlines=4, alpha='MC_AlphaCore'),     # <= 4 of the 11 core lines (two fills, two sale lines, split, both events)
     'lines_fills_q': dict(minlines=6, maxlines=6, alpha='MC_AlphaFills'),   # separated fills on two days: all 720 orders
     'lines_splits_q': dict(minlines=4, maxlines=5, alpha='MC_AlphaSplits'),  # two reorganisations on one day, the other security's split
+    # seeded random FILES of 8-14 lines (three securities, eight day slots, shuffled line order): beyond the exhaustive bound;
+    # TLC runs Lines on each, checks the refinement onto Cgt and hands its outcome to the replay
+    'lines_files_q': dict(files=240),
+    'lines_files_t': dict(files=3000),
     'lines_t': dict(maxlines=4, alpha='MC_AlphaAll'),
     'lines5_t': dict(maxlines=5, alpha='MC_AlphaCore'),
 }
@@ -297,8 +302,14 @@ LINES_FAMILIES = {
 def lines_family(name, seed=1):
     if name in _family_cache:
         return _family_cache[name]
-    cfg = write_cfg('MC_' + name[0].upper() + name[1:], lines_cfg(**LINES_FAMILIES[name]))
-    m = tlc('MC_Lines', cfg, workers=8, timeout=3000)
+    fam = LINES_FAMILIES[name]
+    cfg = write_cfg('MC_' + name[0].upper() + name[1:], lines_cfg(**fam))
+    env = None
+    if fam.get('files'):
+        fp = os.path.join(workdir('cgt_' + name), 'files.ndjson')
+        _write_line_files(fp, fam['files'], seed)
+        env = {'LINESFILE': fp}
+    m = tlc('MC_Lines', cfg, workers=8, timeout=3000, env=env)
     log(f'[tlc] MC_Lines/{name}: refinement Lines => Cgt held for every order of the lines on {m["states"]} distinct states, '
         f'{m["transitions"]} transitions, depth {m["depth"]} ({"cached" if m["cached"] else str(m["wall_s"]) + "s"})')
     wd = workdir('cgt_' + name)
@@ -310,6 +321,51 @@ def lines_family(name, seed=1):
     _lines_binding_selftest(m['out'], wd)
     _family_cache[name] = r
     return r
+
+
+def _write_line_files(path, n, seed):
+    """Seeded random ledgers as line lists: built day by day with a running holding so that most sales are covered (some
+    deliberately are not), then SHUFFLED -- the file order is arbitrary.  Quantities 1..4 and halves, small integer prices."""
+    import random
+    rnd = random.Random(1000003 * seed + n)
+    secs = ['AAA', 'BBB', 'CCC']
+    with open(path, 'w') as f:
+        for _ in range(n):
+            lines, held = [], {s: 0 for s in secs}
+            target = rnd.randint(8, 14)
+            days = sorted(rnd.choice(range(1, 9)) for _ in range(target))
+            nsplit = 0
+            for d in days:
+                s = rnd.choice(secs if rnd.random() < 0.5 else secs[:2] if rnd.random() < 0.7 else secs[:1])
+                r = rnd.random()
+                q2 = rnd.choice([2, 4, 6, 8, 1, 3])          # in halves: 1, 2, 3, 4, 1/2, 3/2
+                if r < 0.42 or held[s] == 0 and r < 0.8:
+                    lines.append([d, s, 'BUY', [q2, 2], [rnd.randint(5, 20), 1], [rnd.choice([0, 0, 1, 2]), 1]])
+                    held[s] += q2
+                elif r < 0.80:
+                    q2 = min(q2, held[s]) if rnd.random() < 0.93 else q2 + held[s]      # now and then an uncovered sale
+                    if q2 == 0:
+                        q2 = 2
+                    lines.append([d, s, 'SELL', [q2, 2], [rnd.randint(5, 20), 1], [rnd.choice([0, 0, 1, 2]), 1]])
+                    held[s] = max(0, held[s] - q2)
+                elif r < 0.86 and nsplit < 2:
+                    k = rnd.choice([[2, 1], [1, 2]])
+                    lines.append([d, s, 'SPLIT', k, [0, 1], [0, 1]])
+                    held[s] = held[s] * k[0] // k[1]
+                    nsplit += 1
+                elif r < 0.91:
+                    lines.append([d, s, 'CAPRETURN', [0, 1], [rnd.randint(1, 3), 1], [rnd.choice([0, 1]), 1]])
+                elif r < 0.96:
+                    lines.append([d, s, 'ACC', [0, 1], [rnd.randint(1, 4), 1], [0, 1]])
+                else:
+                    lines.append([d, s, 'DIV', [0, 1], [rnd.randint(1, 4), 1], [0, 1]])
+            rnd.shuffle(lines)
+            for l in lines:                                   # normalised rationals
+                for i in (3, 4, 5):
+                    a, b = l[i]
+                    g = math.gcd(a, b) or 1
+                    l[i] = [a // g, b // g]
+            f.write(json.dumps({'lines': lines}) + '\n')
 
 
 def _lines_binding_selftest(tlc_out, wd):
